@@ -4,6 +4,7 @@ import os
 
 from ..core import RuleResult, VERIF
 from ..facts import AnchorMissing, Operand, norm
+from .. import interval
 from .. import an, psa
 from . import common
 
@@ -248,6 +249,52 @@ def rule_c(ctx):
         r.ok("visit_color|hex-lengths", values=sorted(consts))
     else:
         r.violate("visit_color|hex-lengths", "visit_color compares the name length with %s, expected the hex lengths 4 and 7" % sorted(consts), b.loc())
+    # can_use_short_hex: true only if is_symmetrical_hex holds for each of red, green and blue
+    cu = prog.one("Serializer::can_use_short_hex")
+
+    def channel_of(op, depth=0):
+        if depth > 10 or op.place is None:
+            return None
+        for bb_, i_, d in cu.defs_of(op.place.local):
+            if isinstance(d, dict):
+                src = d.get("op") if d["k"] in ("use", "cast") else None
+                if src is None and d["k"] == "ref":
+                    src = {"k": "copy", "p": {"l": d["p"]["l"]}}
+                if src is not None and "p" in src:
+                    return channel_of(Operand({"k": "copy", "p": {"l": src["p"]["l"]}}), depth + 1)
+                return None
+            nm = d.name() or d.callee or ""
+            for ch in ("red", "green", "blue"):
+                if nm.endswith("color::Color::" + ch):
+                    return ch
+            if d.args:
+                return channel_of(d.args[0], depth + 1)
+        return None
+
+    symc = [c for c in cu.calls() if (c.name() or "").endswith("Serializer::is_symmetrical_hex")]
+    chans = {}
+    for c in symc:
+        chans.setdefault(channel_of(c.args[0]), []).append(c)
+    # every way of returning a possibly-true value is under the true outcome of all the other tests
+    def true_edge_dominates(c, site_bb):
+        for sw, pol in common.switches_on_call(cu, c):
+            if an.edge_dominates(cu, (sw, common.bool_edge(cu, sw, pol)), site_bb):
+                return True
+        return False
+    conj = True
+    for bb_, i_, pl_, rv_, st_ in cu.assignments():
+        if pl_.local == 0 and not pl_.proj and rv_["k"] == "use" and rv_["op"]["k"] == "const" and Operand(rv_["op"]).const_value() is True:
+            if not all(true_edge_dominates(c, bb_) for c in symc):
+                conj = False
+    for c in symc:
+        if c.dest is not None and c.dest.local == 0:
+            if not all(true_edge_dominates(c2, c.bb) for c2 in symc if c2 is not c):
+                conj = False
+    if set(chans) == {"red", "green", "blue"} and conj:
+        r.ok("can_use_short_hex|all-three-channels")
+    else:
+        r.violate("can_use_short_hex|all-three-channels", "can_use_short_hex must require is_symmetrical_hex of red, green and blue together; it tests %s%s: a colour whose "
+                  "untested channel is not a doubled digit is written as #rgb and changes" % (sorted(str(k) for k in chans), "" if conj else " (not as a conjunction)"), cu.loc())
     # is_symmetrical_hex: channel & 0xF == channel >> 4
     sym = prog.one("Serializer::is_symmetrical_hex")
     ops = [(rv["op"], repr(an.trace_operand(sym, Operand(rv["a"]))), repr(an.trace_operand(sym, Operand(rv["b"])))) for bb, i, pl, rv, s in sym.assignments() if rv["k"] == "binop"]
@@ -260,4 +307,115 @@ def rule_c(ctx):
     return r
 
 
-RULES = [rule_a, rule_b, rule_c]
+# ---------------------------------------------------------------------------------------------
+def _number_rem_summary(prog):
+    """`Number % Number(c)` with a positive constant c lies in [0, c]: checked on the bodies of Rem::rem, modulo and real_mod."""
+    rem = prog.one("<grass_compiler::value::number::Number as std::ops::arith::Rem>::rem")
+    cs = [c for c in rem.calls()]
+    if len(cs) != 1 or not (cs[0].name() or "").endswith("number::modulo") or [repr(an.trace_operand(rem, a)) for a in cs[0].args] != ["arg1.0", "arg2.0"]:
+        return None, "Number::rem is not modulo(self.0, other.0)"
+    mo = prog.one("value::number::modulo")
+    # first decision: n2 > 0.0 ; on its true edge the result is real_mod(n1, n2)
+    sw = None
+    for bb in mo.rpo():
+        t = mo.term(bb)
+        if t["k"] == "switch" and bb not in mo._const_switch:
+            sw = bb
+            break
+    if sw is None:
+        return None, "modulo has no decision"
+    ok = False
+    for kind, obj, pol in an.cond_sources(mo, Operand(mo.term(sw)["d"])):
+        if kind == "binop" and obj[0] in ("Gt", "Lt"):
+            a, b_ = obj[1], obj[2]
+            if obj[0] == "Lt":
+                a, b_ = b_, a
+            if a.place is not None and an.trace_operand(mo, a) == an.AP(("arg", 2), ()) and b_.const is not None and float(b_.const.get("f", "1")) == 0.0:
+                tgt = common.bool_edge(mo, sw, pol)
+                # the region entered on that edge returns the result of real_mod(arg1, arg2)
+                for c in mo.calls():
+                    if (c.name() or "").endswith("number::real_mod") and (c.bb == tgt or mo.dominates(tgt, c.bb)) and an.edge_dominates(mo, (sw, tgt), c.bb) \
+                            and [repr(an.trace_operand(mo, x)) for x in c.args] == ["arg1", "arg2"] and c.dest is not None and c.dest.local == 0:
+                        ok = True
+    if not ok:
+        return None, "modulo no longer returns real_mod(n1, n2) when n2 > 0.0"
+    rm = prog.one("value::number::real_mod")
+    cs = [c for c in rm.calls()]
+    if len(cs) != 1 or not (cs[0].name() or cs[0].callee or "").endswith("rem_euclid") or [repr(an.trace_operand(rm, x)) for x in cs[0].args] != ["arg1", "arg2"]:
+        return None, "real_mod is not n1.rem_euclid(n2)"
+
+    def summ(ev, body, call, depth):
+        m = ev.operand(body, call.args[1], depth)
+        if m[0] > 0 and m[1] < float("inf"):
+            return (0.0, m[1])
+        return interval.TOP
+    return summ, "Number % c = modulo = real_mod = rem_euclid for c > 0 (checked on their bodies)"
+
+
+def rule_d(ctx):
+    r = RuleResult("C15-d", "hue wrap-around: every hue handed to Color::hue_to_rgb lies in [-1, 2] turns (it corrects by at most one turn in each direction), "
+                   "by interval analysis of the arithmetic between the hue parameter and the call")
+    prog = ctx.prog()
+    summ, why = _number_rem_summary(prog)
+    summaries = {}
+    if summ is not None:
+        summaries["<grass_compiler::value::number::Number as std::ops::arith::Rem>::rem"] = summ
+        r.ok("Number::rem|non-negative-modulo", why=why)
+    else:
+        r.violate("Number::rem|non-negative-modulo", "cannot establish that `Number % c` is the non-negative modulo: %s" % why)
+    # precondition of hue_to_rgb, from its own body: it adds one turn if hue < 0 and subtracts one if hue > 1, nothing else
+    h2r = prog.one("color::Color::hue_to_rgb")
+    adj = []
+    for bb, i, pl, rv, st in h2r.assignments():
+        if rv["k"] == "binop" and rv["op"] in ("Add", "Sub") and not pl.proj and pl.local == 3 and rv["b"].get("k") == "const":
+            adj.append((rv["op"], float(rv["b"]["c"].get("f", "nan"))))
+    if sorted(adj) == [("Add", 1.0), ("Sub", 1.0)]:
+        r.ok("hue_to_rgb|corrects-one-turn", adjustments=sorted(adj))
+        bound = (-1.0, 2.0)
+    else:
+        r.violate("hue_to_rgb|corrects-one-turn", "hue_to_rgb's own wrap-around is no longer `+1 if < 0, -1 if > 1` (%s): the precondition [-1, 2] is not the right one" % sorted(adj), h2r.loc())
+        bound = (-1.0, 2.0)
+    n = 0
+
+    def check_site(body, call, env, via):
+        ev = interval.Eval(prog, env=env, summaries=summaries)
+        return ev.operand(body, call.args[2])
+
+    for b in prog.bodies.values():
+        for c in b.calls():
+            if not (c.name() or "").endswith("color::Color::hue_to_rgb"):
+                continue
+            src = an.trace_operand(b, c.args[2])
+            if b.is_closure() and src.root[0] == "arg" and not src.proj:
+                # the hue is the closure's parameter: check every call of the closure in its parent
+                parent = prog.bodies.get(b.path.rsplit("::{closure", 1)[0])
+                sites = [pc for pc in (parent.calls() if parent else []) if pc.name() == b.path]
+                if not sites:
+                    r.violate("%s|hue-range" % b.path, "hue_to_rgb is called on a closure parameter and the closure's call sites cannot be found", c.loc())
+                for k, pc in enumerate(sites):
+                    n += 1
+                    ev = interval.Eval(prog, summaries=summaries)
+                    # closure arguments arrive as a tuple
+                    iv = ev.place(parent, pc.args[1].place.local, [{"k": "field", "i": src.root[1] - 2}], 0) if pc.args[1].place is not None else interval.TOP
+                    key = "%s|hue-range|call#%d" % (b.path, k)
+                    if interval.within(iv, bound):
+                        r.ok(key, interval=[round(iv[0], 6), round(iv[1], 6)])
+                    else:
+                        r.violate(key, "the hue passed to hue_to_rgb through %s ranges over [%g, %g] turns, outside [-1, 2]: one correction by a whole turn no longer "
+                                  "brings it into [0, 1] and a channel is computed from a negative or > 1 hue" % (b.path, iv[0], iv[1]), pc.loc())
+                continue
+            n += 1
+            ev = interval.Eval(prog, summaries=summaries)
+            iv = ev.operand(b, c.args[2])
+            ordinal = sum(1 for c2 in b.calls() if (c2.name() or "").endswith("color::Color::hue_to_rgb") and c2.bb < c.bb)
+            key = "%s|hue-range|call#%d" % (b.path, ordinal)
+            if interval.within(iv, bound):
+                r.ok(key, interval=[round(iv[0], 6), round(iv[1], 6)])
+            else:
+                r.violate(key, "the hue passed to hue_to_rgb in %s ranges over [%g, %g] turns, outside [-1, 2]: one correction by a whole turn no longer brings it "
+                          "into [0, 1] and a channel is computed from a negative or > 1 hue" % (b.path, iv[0], iv[1]), c.loc())
+    r.floor("hue_to_rgb call sites", n, 6)
+    return r
+
+
+RULES = [rule_a, rule_b, rule_c, rule_d]
